@@ -23,7 +23,7 @@ from vlib import f2b, fs2b, b2f, b2fs, ints
 from props import c01
 
 ID = "C07"
-GEN = ["Leaves", "Misc"]
+GEN = ["Leaves", "Misc", "Params"]
 RULE = ("constructor round trips Affine/Scale over magnitudes 1e-6..1e6; every leaf kind's transform/inverse on boundary-directed inputs with "
         "non-default parameters; Permute with permutations of rank 1-3 (all permutations of size<=4 in quick, random up to 12), invalid "
         "permutation arrays; Flip on ranks 1-3; AdditiveCondition with random f; non-trivial = non-default parameters or non-identity permutation; "
@@ -104,6 +104,43 @@ def corr(c, tier, rng):
             want = [float(r[0]), float(r[1])] if isinstance(r, tuple) else [float(r)]
             add(f"addcond {m} {f2b(x)} {f2b(fc)}", want, dict(additive=True, method=m), ("addcond", x, fc, m), True)
         c.count("additive")
+    # spline constructor: non-default min_derivative / softmax_adjust / asymmetric intervals -> the unwrapped parameters
+    # (generated parameterisation, Gen/Params.lean) and the documented "identity at initialisation"
+    for _ in range(6 if tier == "quick" else 40):
+        knots = rng.choice([1, 2, 4, 7])
+        iv = rng.choice([1, 2.0, (-1.0, 3.0), (0.5, 2.5)])
+        dmin = rng.choice([1e-3, 0.01, 0.1, 0.3])
+        adj = rng.choice([1e-2, 0.0, 0.5])
+        sp = B.RationalQuadraticSpline(knots=knots, interval=iv, min_derivative=dmin, softmax_adjust=adj)
+        u = unwrap(sp)
+        lo, hi = (float(iv[0]), float(iv[1])) if isinstance(iv, tuple) else (-float(iv), float(iv))
+        zeros = [0.0] * knots
+        add(f"par knots {fs2b(zeros)} {f2b(lo)} {f2b(hi)} {f2b(adj)}", [float(v) for v in u.x_pos], dict(ctor="RQS.x_pos", knots=knots, interval=iv, adj=adj), ("rqsx", knots, lo, hi, adj), True)
+        add(f"par derivinit {f2b(dmin)}", [float(sp.derivatives.args[0][0])], dict(ctor="RQS.raw-derivative", dmin=dmin), ("rqsd0", dmin), dmin != 1e-3)
+        raw = [float(v) for v in sp.derivatives.args[0]]
+        add(f"par derivs {f2b(dmin)} {fs2b(raw)}", [float(v) for v in u.derivatives], dict(ctor="RQS.derivatives", dmin=dmin), ("rqsd", knots, dmin), dmin != 1e-3)
+        for x in [lo, hi, 0.5 * (lo + hi), lo + 0.3 * (hi - lo), lo - 1.0, hi + 2.0]:
+            # documented: the identity at initialisation (model: generated kernel on the model's constructor parameters)
+            add(fj.rqs_line(sp, "t", x), [float(sp.transform(jnp.asarray(x)))], dict(ctor="RQS.init-transform", x=x, dmin=dmin), ("rqsinit", knots, lo, hi, dmin, x), dmin != 1e-3)
+            if not vlib.close(float(sp.transform(jnp.asarray(x))), x, rtol=1e-9, atol=1e-9):
+                c.mismatch("rqs-identity-at-initialisation", knots=knots, interval=iv, min_derivative=dmin, x=x, got=float(sp.transform(jnp.asarray(x))))
+        c.count("rqs-ctor")
+    # TriangularAffine(loc, arr, lower): A is the requested triangle of the given matrix (model: Params.triangularInit)
+    tri_jobs = []
+    for _ in range(6 if tier == "quick" else 40):
+        n = rng.choice([1, 2, 3, 4])
+        lower = rng.random() < 0.5
+        arr = [[rng.uniform(-2, 2) if i != j else math.exp(rng.uniform(-1, 1)) for j in range(n)] for i in range(n)]
+        loc = [rng.uniform(-1, 1) for _ in range(n)]
+        t = B.TriangularAffine(jnp.asarray(loc), jnp.asarray(arr), lower=lower)
+        A = np.asarray(unwrap(t).triangular)
+        add(f"par triinit {int(lower)} {n} {fs2b(sum(arr, []))}", [float(v) for v in A.ravel()], dict(ctor="TriangularAffine", lower=lower, n=n), ("tri", n, lower, tuple(map(tuple, arr))), True)
+        x = np.asarray([rng.uniform(-2, 2) for _ in range(n)])
+        ref = (np.tril(np.asarray(arr)) if lower else np.triu(np.asarray(arr))) @ x + np.asarray(loc)
+        got = np.asarray(t.transform(jnp.asarray(x)))
+        if not np.allclose(got, ref, rtol=1e-9, atol=1e-9):
+            c.mismatch("triangular-documented-function", lower=lower, arr=arr, loc=loc, x=x.tolist(), got=got.tolist(), want=ref.tolist())
+        c.count("triangular-ctor")
     outs = vlib.run_model(lines)
     for line, got, want, info in zip(lines, outs, wants, infos):
         if want and isinstance(want[0], str) and want[0] in ("REJ", "ACC"):
@@ -151,6 +188,12 @@ def doc_violations(rng, n):
         xa = np.asarray([rng.uniform(-2, 2) for _ in range(size)]).reshape(shp)
         chk(f"Permute{shp}", B.Permute(np.asarray(p).reshape(shp)).transform(jnp.asarray(xa)), xa.ravel()[p].reshape(shp), xa.tolist(), ["PERM", ints(p), ints(shp)])
         chk(f"Flip{shp}", B.Flip(shp).transform(jnp.asarray(xa)), xa.ravel()[::-1].reshape(shp), xa.tolist(), ["FLIP", ints(shp)])
+        # TriangularAffine: A the requested triangle of a NON-symmetric matrix
+        n_ = rng.choice([2, 3, 4]); low_ = rng.random() < 0.5
+        arr_ = np.asarray([[rng.uniform(-2, 2) if i != j else math.exp(rng.uniform(-1, 1)) for j in range(n_)] for i in range(n_)])
+        loc_ = np.asarray([rng.uniform(-1, 1) for _ in range(n_)]); xv_ = np.asarray([rng.uniform(-2, 2) for _ in range(n_)])
+        chk(f"TriangularAffine(lower={low_})", B.TriangularAffine(jnp.asarray(loc_), jnp.asarray(arr_), lower=low_).transform(jnp.asarray(xv_)),
+            (np.tril(arr_) if low_ else np.triu(arr_)) @ xv_ + loc_, xv_.tolist(), None, tol=1e-8)
         # spline: knots, identity outside, identity at init, monotone
         s_ = fj.rqs(rng, rng.choice([2, 4, 7]), rng.choice([1, 2.0, (-1.0, 3.0)]), perturb=2.0)
         lo, hi, xs, ys, ds = fj.rqs_params(s_)
@@ -163,7 +206,7 @@ def doc_violations(rng, n):
         vals = np.asarray([float(s_.transform(jnp.asarray(g))) for g in grid])
         if not np.all(np.diff(vals) > 0):
             out.append(dict(key=f"RQS monotone|{toks[3][:40]}", desc="RQS monotone", x=None, tokens=toks))
-        s0 = B.RationalQuadraticSpline(knots=rng.choice([2, 5]), interval=rng.choice([1, 3.0]))
+        s0 = B.RationalQuadraticSpline(knots=rng.choice([2, 5]), interval=rng.choice([1, 3.0]), min_derivative=rng.choice([1e-3, 0.01, 0.3]))
         for g in np.linspace(-3.5, 3.5, 15):
             chk("RQS identity at init", s0.transform(jnp.asarray(g)), g, float(g), None, tol=1e-9)
         if len(out) >= 5:
